@@ -673,6 +673,7 @@ where
                 .expect("unreachable: default value will be got if the value unset");
             output.revise_max_stream_data(
                 zero_rtt_rejected,
+                self.role,
                 opened_bidi,
                 opened_uni,
                 opened_bidi_snd_wnd_size,
